@@ -210,9 +210,22 @@ impl From<&IPFix> for NetflowCommon {
 
         for flowset in &value.flowsets {
             if let IPFixFlowSetBody::Data(data) = &flowset.body {
+                // The IPFIX parser emits one single-entry map per field, keyed by the field's
+                // index in its record: a record starts wherever the index does not increase.
+                let mut records: Vec<BTreeMap<IPFixField, FieldValue>> = vec![];
+                let mut last_index: Option<usize> = None;
                 for data_field in &data.fields {
-                    let value_map: BTreeMap<IPFixField, FieldValue> =
-                        data_field.values().cloned().collect();
+                    for (index, (field, value)) in data_field.iter() {
+                        if last_index.is_none_or(|last| *index <= last) {
+                            records.push(BTreeMap::new());
+                        }
+                        last_index = Some(*index);
+                        if let Some(record) = records.last_mut() {
+                            record.insert(*field, value.clone());
+                        }
+                    }
+                }
+                for value_map in records {
                     flowsets.push(NetflowCommonFlowSet {
                         src_addr: value_map
                             .get(&IPFixField::SourceIpv4address)
